@@ -18,7 +18,7 @@ func termRules() []*Rule {
 		{ID: "TERM-2", Props: []string{"C05", "C16"}, Min: 50,
 			Doc: "every loop in an API-reachable function is a range loop, a progress loop (an index that grows by ≥ 1 on every iteration against an invariant bound), a shrink loop, or a growth loop with a bounded target",
 			Run: runTerm2},
-		{ID: "CONTRACT", Props: []string{"C05", "C16", "C18", "C10", "C01"}, Min: 10,
+		{ID: "CONTRACT", Props: []string{"C05", "C16", "C18", "C10", "C01", "C02", "C03"}, Min: 10,
 			Doc: "the contracts and field invariants the PANIC prover relies on are themselves proven: page length of every pager, header page size range, payload length range, cell-pointer range, column-index correlation, scan-error contract, immutable cell slices, result length of columnStoreOrder",
 			Run: runContract},
 	}
